@@ -48,3 +48,14 @@ Example c08_ex_trunc : q_new StZ [1; 1; 1] [1; 0; 0]%Z (3048 # 10000) 0 (-7)%Z =
 Proof. vm_compute. reflexivity. Qed.
 Example c08_ex_mile_km : q_new StQ [1000 # 1; 1; 1] [1; 0; 0]%Z (1609344 # 1000) 0 1 == 1609344 # 1000000.
 Proof. vm_compute. reflexivity. Qed.
+
+(* the plumbing of the exact storage classes that the model's StZ / StQ transcribe (Gen/StorageSrc.v is regenerated from src/lib.rs):
+   integers and big integers convert through Ratio<V> and return to_integer() (truncation toward zero); rationals are their own
+   factor type; the big classes raise to a negative power by recip() then pow *)
+From Coq Require Import String.
+From UomV Require Import Gen.StorageSrc Spec.StorageTie.
+Open Scope string_scope.
+Theorem c08_exact_plumbing_is_what_the_model_transcribes :
+  forallb (fun c => rows_eqb (class_rows c src_storage) (class_rows c expected_storage))
+          ["PrimInt"; "BigInt,BigUint"; "Rational,Rational32,Rational64"; "BigRational"; "default"] = true.
+Proof. vm_compute. reflexivity. Qed.
